@@ -2,6 +2,7 @@ package cw
 
 import (
 	"fmt"
+	"os"
 	"testing"
 
 	resourcetypes "github.com/projecteru2/core/resource/types"
@@ -26,6 +27,9 @@ func dump(t *testing.T, w *World, title string) {
 }
 
 func TestExplore(t *testing.T) {
+	if os.Getenv("VERIF_EXPLORE") == "" {
+		t.Skip("set VERIF_EXPLORE=1 to print the call sequences of every operation")
+	}
 	w := New(t, Options{})
 	w.IC.Reset()
 	w.AddPod("p1")
